@@ -1,12 +1,18 @@
-import Qwt.Proofs.CraftDefs
+import Qwt.Proofs.CraftMain
+import Qwt.Proofs.CraftDecode
 
 /-!
 C02 — correctness of `craft_wm_codes` (`Qwt.Huff.craftWmCodes`), the prefix-code construction
 of the Huffman-shaped wavelet matrices.  Definitions (`digits`, `revLex`, `WMValid`,
-`LensOK`) are in `Qwt/Proofs/CraftDefs.lean`.
+`LensOK`) are in `Qwt/Proofs/CraftDefs.lean`, `LensAdm` in `Qwt/Proofs/CraftMain.lean`; the
+loop invariant (`Inv`: free nodes strictly decreasing / accounting) in `Qwt/Proofs/CraftInv.lean`.
+
+The theorems quantify over EVERY input list `lens` (every `HashMap` iteration order, hence
+every tie order of the stable sort).  `D = 4` is the quad routine (`huffqwt.rs`), `D = 2` the
+binary one (`binwt/mod.rs`).
 -/
 namespace Qwt.Props.C02
-open Qwt Qwt.Huff
+open Qwt Qwt.Huff Qwt.Proofs.Craft
 
 deriving instance DecidableEq for Except
 
@@ -62,6 +68,178 @@ theorem craftWmCodesSlots_eq (D : Nat) (lens : List (Nat × Nat)) (sigma : Nat) 
 theorem craft_binary_one_symbol_unrepaired :
     craftWmCodesSlots 2 [(5, 1)] 5 1 = .error .indexPanic := by decide
 
+
+/-! ### 1–3 (general form, explicit Kraft slack) -/
+
+/-- index of a given input pair in the sorted list -/
+theorem sorted_index {D : Nat} {lens : List (Nat × Nat)} {sigma slack : Nat} {p : Nat × Nat}
+    (hp : p ∈ lens) : ∃ i, i < (mkCtx D lens sigma slack).f.length ∧
+      (mkCtx D lens sigma slack).sy i = p.1 ∧ (mkCtx D lens sigma slack).tl i = p.2 * bitsOf D := by
+  have : (p.1, p.2 * bitsOf D) ∈ sortedLens D lens := mem_sortedLens.mpr ⟨p, hp, rfl⟩
+  obtain ⟨i, hi, he⟩ := List.mem_iff_getElem.mp this
+  refine ⟨i, hi, ?_, ?_⟩
+  · show ((sortedLens D lens).getD i (0, 0)).1 = _
+    rw [getD_eq_getElem' _ hi, he]
+  · show ((sortedLens D lens).getD i (0, 0)).2 = _
+    rw [getD_eq_getElem' _ hi, he]
+
+theorem occ_iff {D : Nat} {lens : List (Nat × Nat)} {sigma slack : Nat} (s : Nat) :
+    s ∈ lens.map (·.1) ↔ ∃ i, i < (mkCtx D lens sigma slack).f.length ∧
+      (mkCtx D lens sigma slack).sy i = s := by
+  constructor
+  · intro hs
+    obtain ⟨p, hp, rfl⟩ := List.mem_map.mp hs
+    obtain ⟨i, hi, h1, _⟩ := sorted_index (D := D) (sigma := sigma) (slack := slack) hp
+    exact ⟨i, hi, h1⟩
+  · rintro ⟨i, hi, rfl⟩
+    have hi : i < (sortedLens D lens).length := hi
+    obtain ⟨x, hx, he⟩ := mem_sortedLens.mp (List.getElem_mem hi)
+    show ((sortedLens D lens).getD i (0, 0)).1 ∈ _
+    rw [getD_eq_getElem' _ hi, he]
+    exact List.mem_map.mpr ⟨x, hx, rfl⟩
+
+/-! ### general versions (explicit Kraft slack) -/
+
+theorem craft_no_fault_adm {D : Nat} (hD : D = 4 ∨ D = 2) {lens : List (Nat × Nat)} {sigma slack : Nat}
+    (h : LensAdm D lens slack) (hs : ∀ p ∈ lens, p.1 ≤ sigma) :
+    ∃ codes, craftWmCodes D lens sigma = .ok codes := by
+  obtain ⟨codes, _, h1, _⟩ := craft_core hD h hs
+  exact ⟨codes, h1⟩
+
+theorem craft_lens_adm {D : Nat} (hD : D = 4 ∨ D = 2) {lens : List (Nat × Nat)} {sigma slack : Nat}
+    (h : LensAdm D lens slack) (hs : ∀ p ∈ lens, p.1 ≤ sigma) {codes : Array PrefixCode}
+    (hc : craftWmCodes D lens sigma = .ok codes) :
+    codes.size = sigma + 1 ∧ (∀ p ∈ lens, codes[p.1]!.len = bitsOf D * p.2) ∧
+    (∀ s : Nat, s ∉ lens.map (·.1) → codes[s]! = {}) := by
+  obtain ⟨codes', v, h1, h2⟩ := craft_core hD h hs
+  rw [hc] at h1
+  cases h1
+  have hX := mkCtx_ok hD h hs
+  refine ⟨h2.size, ?_, ?_⟩
+  · intro p hp
+    obtain ⟨i, hi, e1, e2⟩ := sorted_index (D := D) (sigma := sigma) (slack := slack) hp
+    have := (h2.at hX rfl hi).1
+    rw [e1, e2] at this
+    rw [this, Nat.mul_comm]
+  · intro s hs'
+    rw [getElem!_eq]
+    exact h2.other s (fun i hi e => hs' ((occ_iff s).mpr ⟨i, hi, e⟩))
+
+theorem craft_valid_adm {D : Nat} (hD : D = 4 ∨ D = 2) {lens : List (Nat × Nat)} {sigma slack : Nat}
+    (h : LensAdm D lens slack) (hs : ∀ p ∈ lens, p.1 ≤ sigma) {codes : Array PrefixCode}
+    (hc : craftWmCodes D lens sigma = .ok codes) :
+    WMValid D codes (lens.map (·.1)) := by
+  obtain ⟨codes', v, h1, h2⟩ := craft_core hD h hs
+  rw [hc] at h1
+  cases h1
+  have hX := mkCtx_ok hD h hs
+  refine wmvalid_of_crafted hX rfl ?_ h2 _ occ_iff
+  intro i hi
+  have hi : i < (sortedLens D lens).length := hi
+  obtain ⟨x, hx, he⟩ := mem_sortedLens.mp (List.getElem_mem hi)
+  show 1 ≤ ((sortedLens D lens).getD i (0, 0)).2
+  rw [getD_eq_getElem' _ hi, he]
+  have h1 := h.pos x hx
+  have h2 : 0 < bitsOf D := by rcases hD with rfl | rfl <;> decide
+  exact Nat.mul_pos h1 h2
+
+
+/-! ### 1. no fault, with the sharp accounting -/
+
+/-- `craft_wm_codes` never faults on near-complete lengths of at most 32 bits -/
+theorem craft_no_fault {D : Nat} (hD : D = 4 ∨ D = 2) {lens : List (Nat × Nat)} {sigma : Nat}
+    (h : LensOK D lens) (hs : ∀ p ∈ lens, p.1 ≤ sigma) :
+    ∃ codes, craftWmCodes D lens sigma = .ok codes :=
+  craft_no_fault_adm hD (LensOK.adm hD h) hs
+
+/-- the main loop is a `foldlM` of `craftStep` (definitional unfolding) -/
+theorem craftWmCodes_unfold (D : Nat) (lens : List (Nat × Nat)) (sigma : Nat) :
+    craftWmCodes D lens sigma =
+      (do let st ← (List.range lens.length).foldlM (craftStep D (sortedLens D lens))
+            { c := Array.replicate (slotsOf D lens.length) 0,
+              assignments := Array.replicate (sigma + 1) {} }
+          pure st.assignments) := rfl
+
+/-- Sharp accounting.  After `n` symbols (`f` = the sorted `(symbol, bits)` list, `T` the
+    maximal length in bits, `l` the current depth in bits, `c[n..m)` the free nodes):
+    `(m − n)·2^(T−l) + Σ_{i<n} 2^(T−f[i].2) = 2^T`, there are never more than
+    `alph + (D−1)` nodes, which fit in the scratch array, the depth never exceeds the next
+    length (so every shift amount is `< 32`), and `c[n..m)` is strictly decreasing and
+    `< 2^l`. -/
+theorem craft_accounting {D : Nat} (hD : D = 4 ∨ D = 2) {lens : List (Nat × Nat)} {sigma : Nat}
+    (h : LensOK D lens) (hs : ∀ p ∈ lens, p.1 ≤ sigma) (n : Nat) (hn : n ≤ lens.length) :
+    ∃ st, (List.range n).foldlM (craftStep D (sortedLens D lens))
+        { c := Array.replicate (slotsOf D lens.length) 0,
+          assignments := Array.replicate (sigma + 1) {} } = .ok st ∧
+      n ≤ st.m ∧ st.m ≤ lens.length + (D - 1) ∧ st.c.size = slotsOf D lens.length ∧
+      (lens ≠ [] → st.m ≤ st.c.size) ∧
+      (st.m - n) * 2 ^ (lmax lens * bitsOf D - st.l) + ksum (lmax lens * bitsOf D) ((sortedLens D lens).take n)
+        = 2 ^ (lmax lens * bitsOf D) ∧
+      (∀ i, n ≤ i → i < lens.length → st.l ≤ ((sortedLens D lens).getD i (0, 0)).2) ∧
+      (∀ i, n ≤ i → i < st.m → st.c.getD i 0 < 2 ^ st.l) ∧
+      (∀ i i', n ≤ i → i < i' → i' < st.m → st.c.getD i' 0 < st.c.getD i 0) := by
+  have hadm := LensOK.adm hD h
+  have hX := mkCtx_ok hD hadm hs
+  have hlen : (mkCtx D lens sigma (D - 1)).f.length = lens.length := sortedLens_length D lens
+  obtain ⟨st, h1, h2⟩ := craft_loop_inv hX n (by rw [hlen]; exact hn)
+  refine ⟨st, h1, h2.jm, hlen ▸ h2.mle, h2.csize, ?_, h2.count, ?_, ?_, ?_⟩
+  · intro hne
+    have := hadm.fits hne
+    have hm : st.m ≤ lens.length + (D - 1) := hlen ▸ h2.mle
+    rw [h2.csize]
+    show st.m ≤ slotsOf D lens.length
+    omega
+  · intro i h3 h4; exact h2.l_le i h3 (by rw [hlen]; exact h4)
+  · intro i h3 h4
+    have := h2.bnd i h4
+    rwa [lev, if_neg (by omega)] at this
+  · intro i i' h3 h4 h5
+    have := h2.ord i i' h4 h5
+    rw [lev, if_neg (by omega)] at this
+    have hb := h2.bnd i' h5
+    rw [lev, if_neg (by omega)] at hb
+    rwa [Nat.mod_eq_of_lt hb] at this
+
+/-! ### 2. lengths -/
+
+theorem craft_lens {D : Nat} (hD : D = 4 ∨ D = 2) {lens : List (Nat × Nat)} {sigma : Nat}
+    (h : LensOK D lens) (hs : ∀ p ∈ lens, p.1 ≤ sigma) {codes : Array PrefixCode}
+    (hc : craftWmCodes D lens sigma = .ok codes) :
+    codes.size = sigma + 1 ∧ (∀ p ∈ lens, codes[p.1]!.len = bitsOf D * p.2) ∧
+    (∀ s : Nat, s ∉ lens.map (·.1) → codes[s]! = {}) :=
+  craft_lens_adm hD (LensOK.adm hD h) hs hc
+
+/-! ### 3. validity, for every order of the input list -/
+
+theorem craft_valid {D : Nat} (hD : D = 4 ∨ D = 2) {lens : List (Nat × Nat)} {sigma : Nat}
+    (h : LensOK D lens) (hs : ∀ p ∈ lens, p.1 ≤ sigma) {codes : Array PrefixCode}
+    (hc : craftWmCodes D lens sigma = .ok codes) :
+    WMValid D codes (lens.map (·.1)) :=
+  craft_valid_adm hD (LensOK.adm hD h) hs hc
+
+/-- 1 + 3 in one statement -/
+theorem craft_ok_valid {D : Nat} (hD : D = 4 ∨ D = 2) {lens : List (Nat × Nat)} {sigma : Nat}
+    (h : LensOK D lens) (hs : ∀ p ∈ lens, p.1 ≤ sigma) :
+    ∃ codes, craftWmCodes D lens sigma = .ok codes ∧ WMValid D codes (lens.map (·.1)) := by
+  obtain ⟨codes, hc⟩ := craft_no_fault hD h hs
+  exact ⟨codes, hc, craft_valid hD h hs hc⟩
+
+/-! ### 5. decode tables -/
+
+/-- exact lookup: the table of length `len` maps `content` to `sym` iff that is `sym`'s code -/
+theorem decode_tables_ok {D : Nat} {codes : Array PrefixCode} {occ : List Nat} {maxLen : Nat}
+    (hv : WMValid D codes occ) (hmax : ∀ s : Nat, codes[s]!.len ≤ maxLen) (len content sym : Nat) :
+    tableFind ((decodeTables codes maxLen)[len]!) content = some sym ↔
+      codes[sym]! = ⟨content, len⟩ ∧ len ≠ 0 :=
+  decode_tables_find (wmvalid_inj hv) hmax len content sym
+
+/-- with `max_len` as `HuffQWaveletTree::new` computes it -/
+theorem decode_tables_ok_new {D : Nat} {codes : Array PrefixCode} {occ : List Nat}
+    (hv : WMValid D codes occ) (len content sym : Nat) :
+    tableFind ((decodeTables codes (codes.foldl (fun m x => max m x.len) 0))[len]!) content = some sym ↔
+      codes[sym]! = ⟨content, len⟩ ∧ len ≠ 0 :=
+  decode_tables_ok hv (len_le_maxLen codes) len content sym
+
 /-! ### non-vacuity -/
 
 /-- an incomplete quad tree (alphabet size 6 ≢ 1 mod 3): lengths 1,1,1,2,2,2 -/
@@ -88,5 +266,24 @@ example : LensOK 4 [(0,1),(1,1),(2,2),(3,2),(4,1)] :=
 
 example : LensOK 2 [(7,2),(1,1),(4,2)] :=
   ⟨by decide, by decide, by decide, by decide, by decide⟩
+
+/-- the non-Huffman profile 1,1,2,2,2,2 is admissible with slack 4 -/
+example : LensAdm 4 [(0,1),(1,1),(2,2),(3,2),(4,2),(5,2)] 4 :=
+  ⟨by decide, by decide, by decide, by decide, by decide, by decide⟩
+
+example : LensAdm 4 [(0,1),(1,1),(2,2),(3,2)] 6 :=
+  ⟨by decide, by decide, by decide, by decide, by decide, by decide⟩
+
+/-- the one-symbol alphabets -/
+example : LensOK 2 [(5,1)] := ⟨by decide, by decide, by decide, by decide, by decide⟩
+example : LensOK 4 [(5,1)] := ⟨by decide, by decide, by decide, by decide, by decide⟩
+
+/-- `WMValid` of a concrete table, through the theorem -/
+example : WMValid 4 #[⟨3,2⟩, ⟨3,4⟩, ⟨2,2⟩, ⟨2,4⟩, ⟨1,4⟩, ⟨1,2⟩] [0, 1, 2, 3, 4, 5] :=
+  craft_valid (lens := [(0,1),(1,2),(2,1),(3,2),(4,2),(5,1)]) (sigma := 5) (Or.inl rfl)
+    ⟨by decide, by decide, by decide, by decide, by decide⟩ (by decide) (by decide)
+
+/-- `digits` / `revLex` on that table: symbol 1 has code `03`, symbol 0 has code `3` -/
+example : digits 4 ⟨3, 4⟩ = [0, 3] ∧ digits 4 ⟨3, 2⟩ = [3] ∧ revLex 4 [0, 3] = 12 := by decide
 
 end Qwt.Props.C02
